@@ -36,6 +36,7 @@ INJECT = {
     'src/cache/expiration/mod.rs': 'expiration.rs',
     'src/cache/lfu/frequency_counter.rs': 'frequency_counter.rs',
     'src/cache/lfu/tiny_lfu.rs': 'tiny_lfu.rs',
+    'src/cache/lfu/doorkeeper.rs': 'doorkeeper.rs',
     'src/cache/put_or_update.rs': 'put_or_update.rs',
     'src/cache/unique_id/increasing_id_generator.rs': 'increasing_id_generator.rs',
     'src/cache/config/weight_calculation.rs': 'weight_calculation.rs',
@@ -91,7 +92,11 @@ def prepare(repo=REPO, only=None, real_deps=False):
         with open(tp, 'a') as f:
             f.write('\n#[cfg(kani)] #[path = "%s"] pub(crate) mod verif_kani;\n' % hp)
         edits.append('%s: child module verif_kani <- %s' % (target, h))
-    with open(os.path.join(crate, 'src', 'lib.rs'), 'a') as f:
+    lib = os.path.join(crate, 'src', 'lib.rs')
+    libtext = open(lib).read()
+    open(lib, 'w').write('#![cfg_attr(kani, recursion_limit = "512")]\n' + libtext)
+    edits.append('src/lib.rs: `#![cfg_attr(kani, recursion_limit = "512")]` prepended (harness macro expansion), module verif_stubs appended')
+    with open(lib, 'a') as f:
         f.write('\n#[cfg(kani)] #[path = "%s"] pub(crate) mod verif_stubs;\n' % os.path.join(HARNESS_DIR, 'stubs.rs'))
     edits += instrument.apply_all(crate)
     if real_deps:
